@@ -8,25 +8,29 @@ import (
 
 // Op is one operation of a history. It is written to the op log before it is executed.
 type Op struct {
-	K     string   `json:"k"`
-	E     *Ent     `json:"e,omitempty"`
-	T     *Ent     `json:"t,omitempty"` // relation target, nil = none given
-	Add   []int    `json:"add,omitempty"`
-	Rem   []int    `json:"rem,omitempty"`
-	Vals  []int    `json:"vals,omitempty"` // value numbers parallel to Add ("with values" forms)
-	Rel   *int     `json:"rel,omitempty"`
-	N     int      `json:"n,omitempty"`
-	F     *FSpec   `json:"f,omitempty"`
-	Slot  *int     `json:"slot,omitempty"` // registered-filter slot
-	Q     bool     `json:"q,omitempty"`    // Q variant
-	Alt   bool     `json:"alt,omitempty"`  // alternative entry point for the same operation
-	Trav  int      `json:"trav,omitempty"` // how a returned query is consumed
-	Ill   string   `json:"ill,omitempty"`  // illegal-argument class; the call must panic
-	Key   string   `json:"key,omitempty"`  // type key (RegisterType, resources)
-	ID    int      `json:"id,omitempty"`
-	Val   int      `json:"val,omitempty"`
-	Lsn   *LsnSpec `json:"lsn,omitempty"`
-	Probe string   `json:"probe,omitempty"` // out-of-range index call made on the returned query before it is consumed
+	K        string   `json:"k"`
+	E        *Ent     `json:"e,omitempty"`
+	T        *Ent     `json:"t,omitempty"` // relation target, nil = none given
+	Add      []int    `json:"add,omitempty"`
+	Rem      []int    `json:"rem,omitempty"`
+	Vals     []int    `json:"vals,omitempty"` // value numbers parallel to Add ("with values" forms)
+	Rel      *int     `json:"rel,omitempty"`
+	N        int      `json:"n,omitempty"`
+	F        *FSpec   `json:"f,omitempty"`
+	Slot     *int     `json:"slot,omitempty"` // registered-filter slot
+	Q        bool     `json:"q,omitempty"`    // Q variant
+	Alt      bool     `json:"alt,omitempty"`  // alternative entry point for the same operation
+	Trav     int      `json:"trav,omitempty"` // how a returned query is consumed
+	Ill      string   `json:"ill,omitempty"`  // illegal-argument class; the call must panic
+	Key      string   `json:"key,omitempty"`  // type key (RegisterType, resources)
+	ID       int      `json:"id,omitempty"`
+	Val      int      `json:"val,omitempty"`
+	Lsn      *LsnSpec `json:"lsn,omitempty"`
+	GK       string   `json:"gk,omitempty"`    // generic-API entry point used instead of the ID-based call
+	GN       int      `json:"gn,omitempty"`    // arity of the generic instantiation
+	GRel     bool     `json:"grel,omitempty"`  // instantiation whose first type parameter is the relation type
+	GWithRel bool     `json:"gwr,omitempty"`   // map constructed with a relation argument
+	Probe    string   `json:"probe,omitempty"` // out-of-range index call made on the returned query before it is consumed
 }
 
 // LsnSpec describes a listener to install.
